@@ -6,6 +6,7 @@ import re
 
 from .. import oracles as O
 from ..fold import Scope, Unfoldable, dotted, src
+from ..facts import assigned_targets
 from .common import (ctx, ff_for, find_calls, must_pass, node_calls, own_nodes, partial_eval, path_text)
 from .edscommon import ATTR_KEYS, E, OD, reader_pairs, signed_widths, writer_pairs
 
@@ -18,7 +19,10 @@ EXPLANATION = (
     "is exported in partition [0x1000, 0xFFFF] (specialised at every breakpoint of their literals); R6 destination "
     "independence: dest only selects/opens the sink, what export_od opens it closes, the document is written once; R7 "
     "DCF extras: ParameterValue written only for DCF and from value_raw/value, bit rate /1000 <-> *1000, NodeID, same "
-    "section spelling on both sides; R8 object lists: every exported index is written to its list and its object body."
+    "section spelling on both sides, comment lines numbered 1..n with Lines = n; R8 object lists: every exported index "
+    "is written to its list and its object body; R9 presence conditions: every optional attribute (storage location, "
+    "data/access type, default, value, limits, description, factor, unit) is written under a positive test of that "
+    "same attribute, bit rate and node id of a DCF whenever set, the file name's suffix selects DCF/EDS when no type is given."
 )
 ASSUMPTIONS = [
     "not decided: round trip for random dictionaries; configparser write/read symmetry is the trusted base",
@@ -88,8 +92,11 @@ def run(chk):
     chk.check([g for g in gc] == gr_t or [g for g in gc] == [g for g in gr_t if g != "value < 0"], "R2", f"{E} | converter and reverter branch on the same type groups", cv.loc(),
               f"_convert_variable: {gc}; _revert_variable: {gr_t}")
     # integer branch of the reverter: sign-safe literal
-    for code, val, what in ((O.DATA_TYPES["INTEGER16"][0], -5, "negative INTEGER16"), (O.DATA_TYPES["INTEGER32"][0], -2 ** 31, "minimum INTEGER32"), (O.DATA_TYPES["UNSIGNED8"][0], 0, "zero"),
-                            (O.DATA_TYPES["UNSIGNED32"][0], 0xFFFFFFFF, "maximum UNSIGNED32"), (O.DATA_TYPES["INTEGER8"][0], 127, "positive INTEGER8")):
+    int_probes = [(O.DATA_TYPES["INTEGER16"][0], -5, "negative INTEGER16"), (O.DATA_TYPES["INTEGER32"][0], -2 ** 31, "minimum INTEGER32"), (O.DATA_TYPES["UNSIGNED8"][0], 0, "zero"),
+                  (O.DATA_TYPES["UNSIGNED32"][0], 0xFFFFFFFF, "maximum UNSIGNED32"), (O.DATA_TYPES["INTEGER8"][0], 127, "positive INTEGER8")]
+    int_probes += [(O.DATA_TYPES["INTEGER64"][0], v, f"INTEGER64 {v}") for v in (-2 ** 63, -256, -255, -129, -16, -15, -3, -2, -1, 1, 2, 3, 9, 10, 15, 16, 255, 256, 2 ** 63 - 1)]
+    int_probes += [(O.DATA_TYPES["BOOLEAN"][0], v, f"BOOLEAN {v}") for v in (0, 1)]
+    for code, val, what in int_probes:
         text = _revert_text(folder, rv, code, val)
         if text is None:
             chk.unk("R2", f"{E}:_revert_variable | {what}", rv.loc(), "integer branch does not specialise (f-string shape not recognised)")
@@ -116,6 +123,34 @@ def run(chk):
                       f"re-import reads {back!r} instead of {val!r}: the text keeps too few digits")
         else:
             chk.unk("R2", f"{E}:_revert_variable | {what}", rv.loc(), f"float branch not specialised: {r}")
+    # byte-string and text defaults: what the reverter writes is what the converter reads back; None stays None
+    for tname, val in (("OCTET_STRING", b"\x00\x01\xfe\xff"), ("DOMAIN", b"\x10"), ("OCTET_STRING", b"")):
+        code = O.DATA_TYPES[tname][0]
+        r = partial_eval(folder, rv.node, rv.mod, None, {"var_type": code, "value": val})
+        if r[0] != "return":
+            chk.unk("R2", f"{E}:_revert_variable | {tname} {val!r}", rv.loc(), f"byte-string branch not specialised: {r}")
+            continue
+        if not isinstance(r[1], str):
+            chk.bad("R2", f"{E}:_revert_variable | {tname} {val!r} written as text", rv.loc(), f"the reverter returns {r[1]!r}, not hexadecimal text: the importer's bytes.fromhex cannot read it back")
+            continue
+        back = partial_eval(folder, cv.node, cv.mod, None, {"node_id": None, "var_type": code, "value": r[1]})
+        if back[0] == "unknown":
+            chk.unk("R2", f"{E}:_convert_variable | {tname} {r[1]!r}", cv.loc(), f"byte-string branch not specialised: {back}")
+            continue
+        chk.check(back == ("return", val), "R2", f"{E}:_revert_variable | {tname} {val!r} survives as {r[1]!r}", rv.loc(), f"re-import gives {back}")
+    for tname, val in (("VISIBLE_STRING", "a b%c=d"), ("UNICODE_STRING", "\u00e5\u00e4")):
+        code = O.DATA_TYPES[tname][0]
+        r = partial_eval(folder, rv.node, rv.mod, None, {"var_type": code, "value": val})
+        back = partial_eval(folder, cv.node, cv.mod, None, {"node_id": None, "var_type": code, "value": val})
+        if r[0] == "unknown" or back[0] == "unknown":
+            chk.unk("R2", f"{E}:_revert_variable | {tname}", rv.loc(), f"text branch not specialised: {r} / {back}")
+            continue
+        chk.check(r == ("return", val) and back == ("return", val), "R2", f"{E}:_revert_variable | {tname} text handed on unchanged", rv.loc(), f"reverter {r}, converter {back}")
+    r = partial_eval(folder, rv.node, rv.mod, None, {"var_type": O.DATA_TYPES["UNSIGNED8"][0], "value": None})
+    if r[0] == "unknown":
+        chk.notes.append(f"C14.R2: _revert_variable(None) not specialised: {r[1]}")
+    else:
+        chk.check(r == ("return", None), "R2", f"{E}:_revert_variable | an absent value stays absent", rv.loc(), f"{r}")
     # ------------------------------------------------------------------ R3 signed widths (shared)
     f, widths = signed_widths(repo, folder)
     for name, (bits, r) in widths.items():
@@ -270,6 +305,94 @@ def run(chk):
     chk.check(keys == {"f'Line{i}'", "'Lines'"}, "R7", f"{E}:export_eds | comment lines", ex.loc(), f"{keys}")
     rk = {src(c.args[1]) for c in ast.walk(ie.node) if isinstance(c, ast.Call) and dotted(c.func) == "eds.get" and c.args and folder.try_fold(c.args[0], sc, None) == "Comments"}
     chk.check(rk == {"f'Line{line}'", "'Lines'"}, "R7", f"{E}:import_eds | comment lines", ie.loc(), f"{rk}")
+
+    # comment counter: lines are numbered 1..n and `Lines` is n
+    cml = [l for l in ast.walk(ex.node) if isinstance(l, ast.For) and any(c in cm for c in ast.walk(l))]
+    chk.check(len(cml) == 1, "R7", f"{E}:export_eds | one loop writes the comment lines", ex.loc(), f"{len(cml)} loops")
+    for l in cml:
+        line_set = [c for c in cm if any(c is x for x in ast.walk(l))]
+        if isinstance(l.iter, ast.Call) and dotted(l.iter.func) == "enumerate":
+            st_ = l.iter.args[1] if len(l.iter.args) > 1 else next((k.value for k in l.iter.keywords if k.arg == "start"), None)
+            chk.check(st_ is not None and folder.try_fold(st_, sc, None) == 1 and src(l.iter.args[0]) == "od.comments.splitlines()", "R7", f"{E}:export_eds | comment lines numbered from 1", ex.loc(l), src(l.iter))
+            continue
+        chk.check(src(l.iter) == "od.comments.splitlines()", "R7", f"{E}:export_eds | every line of od.comments written", ex.loc(l), src(l.iter))
+        incs = [n for n in l.body if isinstance(n, ast.AugAssign) and src(n.target) == "i" and isinstance(n.op, ast.Add) and folder.try_fold(n.value, sc, None) == 1]
+        allinc = [n for n in ast.walk(l) if isinstance(n, (ast.AugAssign, ast.Assign)) and "i" in assigned_targets(n)]
+        first_set = min((c.lineno for c in line_set), default=0)
+        chk.check(len(incs) == 1 and len(allinc) == 1 and incs[0].lineno < first_set, "R7", f"{E}:export_eds | comment counter advances before each line is written", ex.loc(l),
+                  f"counter updates {[src(n) for n in allinc]}: the importer reads Line1..Line<Lines>")
+        inits = [n for n in own_nodes(ex.node) if isinstance(n, (ast.Assign, ast.AugAssign, ast.For)) and "i" in assigned_targets(n) and n.lineno < l.lineno]
+        init = inits[-1].value if inits and isinstance(inits[-1], ast.Assign) else None
+        chk.check(init is not None and folder.try_fold(init, sc, None) == 0, "R7", f"{E}:export_eds | comment counter starts at 0", ex.loc(l), f"i = {src(init) if init is not None else '?'}")
+        tot = [c for c in cm if folder.try_fold(c.args[1], sc, None) == "Lines"]
+        chk.check(len(tot) == 1 and src(tot[0].args[2]) == "i" and tot[0].lineno > l.end_lineno, "R7", f"{E}:export_eds | Lines = number of lines written", ex.loc(l), f"{[src(c) for c in tot]}")
+
+    # ------------------------------------------------------------------ R9 presence: an attribute that is set is written
+    from ..loader import Func
+    for nm in ("export_variable", "export_common"):
+        nodes = [n for n in ast.walk(ex.node) if isinstance(n, ast.FunctionDef) and n.name == nm]
+        if not nodes:
+            chk.unk("R9", f"{E}:export_eds.{nm}", ex.loc(), "helper not found")
+            continue
+        nf = Func(name=nm, qualname=f"export_eds.{nm}", node=nodes[0], mod=ex.mod, cls=None, kind="nested")
+        fn_ = ff_for(chk, nf, "C14.R9")
+        n_opt = 0
+        for c in [x for x in ast.walk(nodes[0]) if isinstance(x, ast.Call) and dotted(x.func) == "eds.set" and len(x.args) == 3]:
+            key = folder.try_fold(c.args[1], sc, None)
+            attrs = sorted({x.attr for x in ast.walk(c.args[2]) if isinstance(x, ast.Attribute) and dotted(x.value) == "var"} - {"data_type"}) or \
+                sorted({x.attr for x in ast.walk(c.args[2]) if isinstance(x, ast.Attribute) and dotted(x.value) == "var"})
+            if not attrs:
+                continue
+            a = attrs[0]
+            facts = fn_.facts_at(fn_.stmt_of(c))
+            mine = [(fn_.norm(e, subst=False), p) for e, p in facts if f"var.{a}" in [dotted(x) for x in ast.walk(e) if isinstance(x, ast.Attribute)]
+                    or any(isinstance(x, ast.Call) and dotted(x.func) == "getattr" and len(x.args) >= 2 and src(x.args[0]) == "var" and folder.try_fold(x.args[1], sc, None) == a for x in ast.walk(e))]
+            if not mine:
+                continue
+            n_opt += 1
+            ok = all(p for _, p in mine)
+            forms = []
+            for t, _p in mine:
+                forms.append(t)
+                good = t in (f"var.{a}", f"var.{a} is not None", f"getattr(var, '{a}', None) is not None")
+                te = ast.parse(t, mode="eval").body
+                if isinstance(te, ast.Compare) and len(te.ops) == 1 and isinstance(te.ops[0], ast.NotEq) and isinstance(te.left, ast.Call) and dotted(te.left.func) == "getattr" \
+                        and len(te.left.args) == 3:
+                    d_, c_ = folder.try_fold(te.left.args[2], sc, "?d"), folder.try_fold(te.comparators[0], sc, "?c")
+                    good = d_ == c_ and type(d_) in (int, float, str, bool)
+                ok = ok and good
+            chk.check(ok, "R9", f"{E}:{nm} | {key} written whenever {a} is set", ex.loc(c),
+                      f"`{src(c)[:60]}` runs under {mine}: with the condition inverted or altered a set attribute is left out of the document")
+        if nm == "export_variable":
+            chk.floor("R9", n_opt, 8, "conditionally written attributes in export_variable")
+    # commissioning data
+    for c in dc:
+        key = folder.try_fold(c.args[1], sc, None)
+        g = [(fe.norm(e, subst=False), p) for e, p in fe.facts_at(fe.stmt_of(c))]
+        a = {"Baudrate": "od.bitrate", "NodeID": "od.node_id"}.get(key)
+        pos = {t for t, p in g if p}
+        neg = [t for t, p in g if not p]
+        chk.check(a in pos and "device_commisioning" in pos and not neg, "R9", f"{E}:export_eds | {key} written for a DCF whenever it is set", ex.loc(c), f"written under {g}")
+    secs_dc = [c for c in ast.walk(ex.node) if isinstance(c, ast.Call) and dotted(c.func) == "eds.add_section" and c.args and folder.try_fold(c.args[0], sc, None) == "DeviceComissioning"]
+    for c in secs_dc:
+        g = [(fe.norm(e, subst=False), p) for e, p in fe.facts_at(fe.stmt_of(c))]
+        pos = {t for t, p in g if p}
+        chk.check("device_commisioning" in pos and (fe.canon("od.bitrate or od.node_id") in pos or fe.canon("od.node_id or od.bitrate") in pos) and all(p for _, p in g), "R9",
+                  f"{E}:export_eds | DeviceComissioning section for a DCF with bit rate or node id", ex.loc(c), f"created under {g}")
+    # file-name suffix selects the document type when none is given
+    sfx_loops = [l for l in own_nodes(xo.node) if isinstance(l, ast.For) and src(l.iter) == "supported_doctypes"]
+    chk.check(len(sfx_loops) == 1, "R9", f"{OD}:export_od | document type from the file name's suffix", xo.loc(), "no loop over supported_doctypes")
+    for l in sfx_loops:
+        tv = src(l.target)
+        asg = [n for b in l.body for n in ast.walk(b) if isinstance(n, ast.Assign) and src(n.targets[0]) == "doc_type"]
+        ok = len(asg) == 1 and src(asg[0].value) == tv
+        if ok:
+            g = [(fx.norm(e, subst=False), p) for e, p in fx.facts_at(asg[0]) if tv in [x.id for x in ast.walk(e) if isinstance(x, ast.Name)]]
+            ok = len(g) == 1 and g[0][1] and g[0][0] in (f"dest.endswith(f'.{{{tv}}}')", f"dest.endswith('.' + {tv})", f"dest.lower().endswith(f'.{{{tv}}}')")
+        chk.check(ok, "R9", f"{OD}:export_od | `.dcf` file names give a DCF, `.eds` an EDS", xo.loc(l), f"{[src(a_) for a_ in asg]}")
+        chk.check(bool(l.orelse) and any(isinstance(n, ast.Assign) and src(n) == "doc_type = 'eds'" for n in l.orelse), "R9", f"{OD}:export_od | other names default to EDS", xo.loc(l), "")
+    st_ = folder.try_fold(xo.node.body[1].value if False else next((n.value for n in own_nodes(xo.node) if isinstance(n, ast.Assign) and src(n.targets[0]) == "supported_doctypes"), ast.Constant(None)), Scope(xo.mod), None)
+    chk.check(st_ is not None and set(st_) == {"eds", "dcf"}, "R9", f"{OD}:export_od | supported document types", xo.loc(), f"{st_}")
 
 
 def _render(js: ast.JoinedStr, env):
